@@ -197,7 +197,7 @@ func (ip *Interp) callBuiltin(name string, args []Value, cc *ssa.CallCommon) Val
 			if x == nil {
 				return ip.intConst(0, 64)
 			}
-			ip.schedPoint("len(chan)")
+			ip.schedPoint("len(chan)", x)
 			return ip.intConst(len(x.buf), 64)
 		case Agg:
 			return ip.intConst(len(x.elems), 64)
